@@ -10,7 +10,8 @@
 (*                                                                         *)
 (* Records (JSON):                                                         *)
 (*   init    : disk = [[f, v] ...]                        (first record)   *)
-(*   create / touch : f, v        delete : f              (no observation) *)
+(*   create / touch : f, v        delete : f   rmdir : d  (no observation) *)
+(*   hold / release : exc         the application keeps / drops item refs  *)
 (*   add / remove / update / scan : d, exc                                 *)
 (*   scanall / collect : exc      load : dirs, exc                         *)
 (*   scanbegin : all, d, exc      scanend : exc   (a scan in two steps)    *)
@@ -52,7 +53,7 @@ TInit ==
   /\ disk = ToSet(Traces[tid][1].disk)
   /\ shared = {} /\ items = {} /\ tm = {} /\ dead = {}
   /\ fresh = FALSE /\ n = 0
-  /\ scanning = {} /\ scanAll = FALSE
+  /\ scanning = {} /\ scanAll = FALSE /\ kept = {}
 
 IsEv(e) == l <= Len(T) /\ Rec.ev = e
 Consume == l' = l + 1 /\ UNCHANGED tid
@@ -63,6 +64,13 @@ Refused(cond) == Rec.exc = "SharedDirectoryError" /\ cond /\ UNCHANGED vars
 TCreate == IsEv("create") /\ DiskCreate(Rec.f, Rec.v) /\ Consume
 TDelete == IsEv("delete") /\ DiskDelete(Rec.f) /\ Consume
 TTouch  == IsEv("touch")  /\ Touch(Rec.f, Rec.v) /\ Consume
+\* a directory tree removed from disk (possibly an empty one: then nothing changes)
+TRmDir  == /\ IsEv("rmdir")
+           /\ DiskRemoveDir(Rec.d) \/ ((\A x \in disk : ~IsUnder(x.f, Rec.d)) /\ UNCHANGED vars)
+           /\ Consume
+\* the application keeps / lets go of the items it was given
+THold    == IsEv("hold")    /\ NoExc /\ (Hold \/ (Keys(items) \subseteq kept /\ UNCHANGED vars)) /\ Consume
+TRelease == IsEv("release") /\ NoExc /\ (Release \/ (kept = {} /\ UNCHANGED vars)) /\ Consume
 
 TAdd    == IsEv("add")    /\ ((NoExc /\ Add(Rec.d))    \/ Refused(Rec.d \in shared))    /\ Consume
 TRemove == IsEv("remove") /\ ((NoExc /\ Remove(Rec.d)) \/ Refused(Rec.d \notin shared)) /\ Consume
@@ -98,7 +106,7 @@ Done ==
 Finished == l = Len(T) + 2 /\ UNCHANGED tvars
 
 TNext == TCreate \/ TDelete \/ TTouch \/ TAdd \/ TRemove \/ TUpdate \/ TScan \/ TScanAll
-         \/ TScanBegin \/ TScanEnd
+         \/ TScanBegin \/ TScanEnd \/ TRmDir \/ THold \/ TRelease
          \/ TLoad \/ TCollect \/ Done \/ Finished
 
 TSpec == TInit /\ [][TNext]_tvars
